@@ -1,3 +1,185 @@
+(* C16 — property theorems only.  Each is closed by [exact] of a lemma proved in
+   Proofs/FieldsIOProofs.v or Proofs/BlocksProofs.v and is followed by Print Assumptions.
+
+   Vocabulary (definitions, all executable):
+     Model.FieldsIO : bytes = list Z; header_bytes / decode_header (= initialize / fromFile), hSize, fSize,
+                      recSize, nFields, readField, times, addBytes m (m = Raw: the pinned open(...,"ab") append;
+                      m = Aligned: write at hSize + nFields*recSize), step (op-level model incl. ALLOW_OVERWRITE).
+     FieldsIOProofs : the_file h recs tail = header_bytes h ++ records ++ tail;  expected_read recs idx = what
+                      Python list indexing of the written records gives (AssertionError outside -n..n-1);
+                      add_all = addField for each record in turn;  conc_run / spec_run = histories.
+     Model.Blocks   : nBlocks (both algorithms), ranks, localBounds, owns. *)
 From PySDC Require Import Base.Tactics Model.FieldsIO Proofs.FieldsIOProofs.
-Theorem C16_placeholder : True. Proof. exact placeholder_true. Qed.
-Print Assumptions C16_placeholder.
+From PySDC Require Model.Blocks Proofs.BlocksProofs.
+Open Scope Z_scope.
+
+(* (1) header round trip: for EVERY header within the integer ranges (any dtype id 0-5, nVar, any number of
+   axes, any sizes/coordinate bits) fromFile returns exactly the header written, whatever follows it, and
+   the header occupies exactly hSize bytes. *)
+Theorem C16_header_roundtrip : forall h rest, wf_header h ->
+  decode_header_rest (header_bytes h ++ rest) = Ok (h, rest) /\ blen (header_bytes h) = hSize h.
+Proof. intros h rest H. split; [exact (header_roundtrip h rest H)|exact (header_bytes_len h)]. Qed.
+Print Assumptions C16_header_roundtrip.
+
+(* (2) record round trip: after initialize and ANY sequence of addField calls (either write position) a
+   re-opened handle has the same header, nFields is the number of appends, every index -n..n-1 returns the
+   time and field bits written there, every other index is rejected, times lists the times written. *)
+Theorem C16_records_roundtrip : forall m h recs, wf_header h -> wf_recs h recs ->
+  exists f, add_all m h (header_bytes h) recs = Ok f /\
+    decode_header f = Ok h /\
+    nFields h f = Z.of_nat (length recs) /\
+    (is0d h = false -> forall idx, readField h f idx = expected_read recs idx) /\
+    (is0d h = false -> times h f = Ok (map fst recs)).
+Proof. exact records_roundtrip. Qed.
+Print Assumptions C16_records_roundtrip.
+
+(* (3) crash safety, all crash points at once: if only the first k bytes (ANY k below the record size) of
+   what addField writes reach the file, a re-opened handle has the same header, reports exactly the
+   previously completed records, bit for bit, and never the partial one. *)
+Theorem C16_crash_prefix_safe : forall m h recs t p (k : nat),
+  wf_header h -> wf_recs h recs -> wf_rec (fSize h) (t, p) -> (k < length (t ++ p))%nat ->
+  let before := the_file h recs [] in
+  exists after, addBytes m h before t p = Ok after /\
+    let crashed := firstn (length before + k) after in
+    decode_header crashed = Ok h /\
+    nFields h crashed = Z.of_nat (length recs) /\
+    (is0d h = false -> forall idx, readField h crashed idx = expected_read recs idx) /\
+    (is0d h = false -> times h crashed = Ok (map fst recs)).
+Proof. exact crash_prefix_safe_hdr. Qed.
+Print Assumptions C16_crash_prefix_safe.
+
+(* (3') stronger form: ANY tail shorter than one record after the complete records is invisible *)
+Theorem C16_torn_tail_safe : forall h recs tail,
+  wf_header h -> wf_recs h recs -> blen tail < recSize h ->
+  let f := the_file h recs tail in
+  decode_header f = Ok h /\
+  nFields h f = Z.of_nat (length recs) /\
+  (is0d h = false -> forall idx, readField h f idx = expected_read recs idx) /\
+  (is0d h = false -> times h f = Ok (map fst recs)).
+Proof. exact reads_the_file. Qed.
+Print Assumptions C16_torn_tail_safe.
+
+(* (4) "fields appended after re-opening are again read back exactly":
+   REFUTED for the pinned write (append at the end of the file): witness = Scalar float64 file, nVar 2,
+   one complete record, second append cut after 19 of 24 bytes, append again -> the appended record is
+   returned by no index.
+   Full statement that fails for m = Raw:  forall h recs tail t p, wf... -> blen tail < recSize h ->
+     exists f', addBytes m h (the_file h recs tail) t p = Ok f' /\ readField h f' (-1) = Ok (t, p). *)
+Theorem C16_append_after_crash_refuted :
+  exists h recs t p k t' p',
+    wf_header h /\ wf_recs h recs /\ wf_rec (fSize h) (t, p) /\ wf_rec (fSize h) (t', p') /\
+    (k < length (t ++ p))%nat /\ is0d h = false /\
+    let before := the_file h recs [] in
+    let crashed := firstn (length before + k) (before ++ t ++ p) in
+    exists f', addBytes Raw h crashed t' p' = Ok f' /\
+      decode_header f' = Ok h /\
+      nFields h f' = Z.of_nat (length recs) + 1 /\
+      readField h f' (-1) <> Ok (t', p') /\
+      (forall idx, readField h f' idx <> Ok (t', p')).
+Proof. exact append_after_crash_refuted. Qed.
+Print Assumptions C16_append_after_crash_refuted.
+
+(* ... and PROVED for the aligned write position (the repaired addField), for every torn tail *)
+Theorem C16_append_after_crash_safe_when_aligned : forall h recs tail t p,
+  wf_header h -> wf_recs h recs -> wf_rec (fSize h) (t, p) -> blen tail < recSize h ->
+  exists f', addBytes Aligned h (the_file h recs tail) t p = Ok f' /\
+    decode_header f' = Ok h /\
+    nFields h f' = Z.of_nat (length recs) + 1 /\
+    (is0d h = false -> forall idx, readField h f' idx = expected_read (recs ++ [(t, p)]) idx) /\
+    (is0d h = false -> readField h f' (-1) = Ok (t, p)).
+Proof. exact append_after_crash_safe_aligned. Qed.
+Print Assumptions C16_append_after_crash_safe_when_aligned.
+
+(* (5) overwrite protection: initialize() with ALLOW_OVERWRITE = False leaves an existing file (and all
+   handles) untouched and raises; otherwise the file becomes exactly the header *)
+Theorem C16_overwrite_protected : forall m s k f, file s = Some f ->
+  let '(s', r, _) := step m s (OInit k false) in
+  file s' = Some f /\ handles s' = handles s /\ (r = RErr EExists \/ r = RErr EAssert).
+Proof. exact overwrite_protected. Qed.
+Print Assumptions C16_overwrite_protected.
+
+Theorem C16_initialize_writes_header : forall m s k allow,
+  inited (nth k (handles s) dummy_handle) = false -> (file s = None \/ allow = true) ->
+  let '(s', r, _) := step m s (OInit k allow) in
+  file s' = Some (header_bytes (hd (nth k (handles s) dummy_handle))) /\ r = ROk.
+Proof. exact initialize_writes_header. Qed.
+Print Assumptions C16_initialize_writes_header.
+
+(* (6) crash at ANY byte of header creation: fromFile raises, or (lenient np.fromfile) yields a handle
+   that reports no record: nFields = 0, times = [], every index rejected *)
+Theorem C16_header_crash_safe : forall h (k : nat),
+  wf_header h -> (k < length (header_bytes h))%nat ->
+  let p := firstn k (header_bytes h) in
+  (exists e, decode_header p = Err e) \/
+  (exists h', decode_header p = Ok h' /\ reports_nothing h' p).
+Proof. exact header_crash_safe. Qed.
+Print Assumptions C16_header_crash_safe.
+
+(* (7) ANY interleaving of addField / crash (complete records + fewer than recSize arbitrary bytes) /
+   fromFile / readField / nFields / times: with the aligned write position every observation equals the
+   one computed from the list of completed records; with the pinned write position the same holds for
+   histories without interrupted appends *)
+Theorem C16_any_history : forall h ops, wf_header h -> is0d h = false ->
+  conc_run Aligned h (header_bytes h) ops = spec_run h [] ops.
+Proof. exact any_history_aligned. Qed.
+Print Assumptions C16_any_history.
+
+Theorem C16_any_history_pinned_crash_free : forall h ops, wf_header h -> is0d h = false ->
+  Forall no_crash ops -> conc_run Raw h (header_bytes h) ops = spec_run h [] ops.
+Proof. exact any_history_raw_crash_free. Qed.
+Print Assumptions C16_any_history_pinned_crash_free.
+
+(* non-vacuity: a concrete well-formed Rectilinear header and a history with a crash *)
+Example C16_nonvacuous :
+  let h := mkHeader SRect 4 2 [repeat 7 24; repeat 9 16] in
+  wf_header h /\ is0d h = false /\ fSize h = 48 /\ hSize h = 58 /\
+  conc_run Aligned h (header_bytes h)
+    [HAdd (repeat 1 8) (repeat 2 48); HTorn (repeat 3 55); HAdd (repeat 4 8) (repeat 5 48); HRead (-1); HNFields]
+  = [OUnit; OUnit; OUnit; ORec (Ok (repeat 4 8, repeat 5 48)); ONum 2].
+Proof. exact wf_header_example. Qed.
+Print Assumptions C16_nonvacuous.
+
+(* ------------------------------------------------------------------ BlockDecomposition *)
+Import Model.Blocks Proofs.BlocksProofs.
+
+(* (8) one axis: the intervals [iLoc, iLoc + nLoc) of the ranks 0..nB-1 tile [0, nPoints) exactly once *)
+Theorem C16_axis_tiling : forall nP nB, 0 < nB -> forall x, 0 <= x < nP ->
+  exists r, 0 <= r < nB /\ iLoc nP nB r <= x < iLoc nP nB r + nLoc nP nB r /\
+    forall r', 0 <= r' < nB -> iLoc nP nB r' <= x < iLoc nP nB r' + nLoc nP nB r' -> r' = r.
+Proof. exact axis_tiling. Qed.
+Print Assumptions C16_axis_tiling.
+
+(* (9) ranks is a bijection between 0..prod(nBlocks)-1 and the block grid (both memory orders), and
+   rejects every other rank *)
+Theorem C16_ranks_bijective : forall o dims, Forall (fun b => 0 < b) dims ->
+  (forall g, 0 <= g < zprod dims -> exists rk, ranks o dims g = Some rk /\ in_dims rk dims /\ ravel o dims rk = g) /\
+  (forall rk, in_dims rk dims -> 0 <= ravel o dims rk < zprod dims /\ ranks o dims (ravel o dims rk) = Some rk) /\
+  (forall g, ~ (0 <= g < zprod dims) -> ranks o dims g = None).
+Proof. exact ranks_bijective. Qed.
+Print Assumptions C16_ranks_bijective.
+
+(* (10) both algorithms: prod(nBlocks) = nProcs, one positive block count per axis *)
+Theorem C16_nblocks_product : forall a nProcs gs nb, 1 <= nProcs -> nBlocks a nProcs gs = Some nb ->
+  zprod nb = nProcs /\ length nb = length gs /\ Forall (fun b => 0 < b) nb.
+Proof. exact nblocks_product. Qed.
+Print Assumptions C16_nblocks_product.
+
+(* (11) the partition: for ALL nProcs >= 1, all 1-3-D grid sizes, both algorithms, both orders, every grid
+   point is owned by exactly one of the ranks 0..nProcs-1 (and by no rank outside) *)
+Theorem C16_partition : forall a o nProcs gs, 1 <= nProcs -> (length gs = 1 \/ length gs = 2 \/ length gs = 3)%nat ->
+  exists nb, nBlocks a nProcs gs = Some nb /\ zprod nb = nProcs /\
+    forall x, Forall2 (fun xi g => 0 <= xi < g) x gs ->
+      exists g, 0 <= g < nProcs /\ owns o gs nb g x = true /\
+        forall g', owns o gs nb g' x = true -> g' = g.
+Proof. exact partition. Qed.
+Print Assumptions C16_partition.
+
+(* the while loops of both algorithms terminate by themselves within the fuel the model hands over *)
+Theorem C16_loops_terminate : forall fuel fac rest, 2 <= fac -> 1 <= rest -> (Z.to_nat rest <= fuel)%nat ->
+  snd (count_div fuel fac rest) mod fac <> 0 /\
+  forall bl, fst (factor_out fuel fac (rest, bl)) mod fac <> 0.
+Proof.
+  intros fuel fac rest H1 H2 H3. split; [exact (count_div_done fuel fac rest H1 H2 H3)|].
+  intros bl. exact (factor_out_done fuel fac rest bl H1 H2 H3).
+Qed.
+Print Assumptions C16_loops_terminate.
